@@ -324,6 +324,8 @@ def run_op(op, ins, outs, env, arrays, opts=None):
 
 
 def _elementary(op, bl, bn, oblens, opts, env):
+    if op == "custom":
+        return opts["_fn"]
     if op in REDUCE:
         g = REDUCE[op]
         return lambda s: g(s)
